@@ -148,7 +148,39 @@ def r5(tree, rep):
         raise AnalysisError("interface agreement: only %d resolvable call sites in the package" % n_sites)
 
 
+def r6(tree, rep):
+    """a Deferred that the client keeps in a list in order to fire it later has no canceller, or its canceller takes it out of the list:
+    twisted swallows the callback() that follows a cancel() only for Deferreds WITHOUT a canceller; with one, the later callback()
+    raises AlreadyCalledError inside the transition that notifies the waiters"""
+    from ..automat_x import Program
+    prog = Program(tree)
+    n = 0
+    for cname, ci in prog.classes.items():
+        if ":" in cname or "/cli/" in ci.file or "/test/" in ci.file:
+            continue
+        for fname, fn in list(ci.methods.items()) + list(ci.outputs.items()):
+            for c in ast.walk(fn):
+                if not (isinstance(c, ast.Call) and (dotted(c.func) or "").split(".")[-1] == "Deferred"):
+                    continue
+                n += 1
+                canc = c.args[0] if c.args else next((k.value for k in c.keywords if k.arg == "canceller"), None)
+                if canc is None:
+                    continue
+                from ..astutil import callback_function
+                target = callback_function(canc, fn, dict(ci.methods))
+                removes = target is not None and any(isinstance(x, ast.Call) and isinstance(x.func, ast.Attribute) and x.func.attr in ("remove", "discard", "pop")
+                                                     for x in ast.walk(target))
+                stored = any(isinstance(x, ast.Call) and isinstance(x.func, ast.Attribute) and x.func.attr in ("append", "add") and is_self_attr(x.func.value)
+                             for x in ast.walk(fn))
+                rep.check("C14.R6", "%s.%s creates a Deferred with a canceller: the canceller forgets the Deferred" % (ci.name, fname),
+                          removes or not stored, site(c, ci.file), key="C14.R6:%s.%s:canceller" % (ci.name, fname),
+                          what="%s.%s keeps a Deferred that has a canceller in a waiter list, and the canceller leaves it there: after the application "
+                               "cancels it (addTimeout), the later notification raises AlreadyCalledError inside a state-machine transition" % (ci.name, fname))
+    rep.check("C14.R6", "Deferreds created by the client (%d sites) were examined for cancellers" % n, n > 0)
+
+
 def run(tree, rep, tier):
+    r6(tree, rep)
     from .. import sharedstate
     sharedstate.check(tree, rep, "C14.R0")
     r2(tree, rep)
